@@ -413,13 +413,51 @@ class BaseTaskPool:
             task_id = self._num_started
             self._num_started += 1
             group_reg.add(task_id)
-            self._tasks_running[task_id] = create_task(
+            self._tasks_running[task_id] = task = create_task(
                 coro=self._task_wrapper(
                     awaitable, task_id, end_callback, cancel_callback
                 ),
                 name=self._task_name(task_id),
             )
+            task.add_done_callback(
+                lambda t: self._cleanup_unstarted(
+                    t, awaitable, task_id, end_callback, cancel_callback
+                )
+            )
         return task_id
+
+    def _cleanup_unstarted(
+        self,
+        task: Task[Any],
+        awaitable: Awaitable[Any],
+        task_id: int,
+        end_callback: EndCB | None = None,
+        cancel_callback: CancelCB | None = None,
+    ) -> None:
+        """
+        Finishes the bookkeeping for a task cancelled before its first step.
+
+        Such a task never enters `_task_wrapper`, so neither of the universal
+        callbacks would run and its room in the pool would never be released.
+        The cancel and end callbacks are executed in a follow-up task that
+        takes the place of the original one among the cancelled tasks.
+        """
+        if self._tasks_running.get(task_id) is not task:
+            return  # the wrapper did run (or the pool was closed)
+        if iscoroutine(awaitable):
+            awaitable.close()
+
+        async def cancel_and_end() -> None:
+            try:
+                await execute_optional(cancel_callback, args=(task_id,))
+            finally:
+                await self._task_ending(task_id, custom_callback=end_callback)
+
+        log.debug("Cancelled %s before it started", self._task_name(task_id))
+        del self._tasks_running[task_id]
+        self._tasks_cancelled[task_id] = create_task(
+            cancel_and_end(), name=self._task_name(task_id)
+        )
 
     def _get_running_task(self, task_id: int) -> Task[Any]:
         """
